@@ -86,6 +86,40 @@ def xyJToMn (j : Int) : Int × Int :=
 
 def mnToXyJ (a b : Int) : Int := tri (a + b) + b + 1
 
+/-! ## names of the orders and pairing of the ±m terms (session 3) -/
+
+/-- ordinal ("Primary" = 1, "Secondary" = 2, …) of a non-rotationally-symmetric term, `_name_accessor` for `m ≠ 0`:
+    the position of `n` in the column `|m|` (`n = |m|, |m|+2, …`), except that the odd columns start counting at `n = 3`
+    (`n = 1` is tilt, so primary coma is `(3, ±1)`; prysm counts every odd column like the coma column) -/
+def nameAccessor (n m : Int) : Int :=
+  if m % 2 = 1 then (n - 1) / 2 else (n - iabs m) / 2 + 1
+
+/-- ordinal of a spherical term `(n, 0)`, `n ≥ 4` (`Primary Spherical` is `n = 4`) -/
+def sphericalAccessor (n : Int) : Int := n / 2 - 1
+
+/-- structure of `nm_to_name (n, m)`: (kind, ordinal, |m| of the name table, suffix) with
+    kind 0 `Piston`, 1 `Tilt`, 2 `Defocus`, 3 `<ordinal> Spherical`, 4 `<ordinal> <name of |m|> <suffix>`;
+    suffix 0 `X`, 1 `Y`, 2 `00°`, 3 `45°`, 4 none -/
+def nameKey (n m : Int) : Int × Int × Int × Int :=
+  if n = 0 then (0, 0, 0, 4)
+  else if n = 1 then (1, 0, 1, if 0 ≤ m then 0 else 1)
+  else if m = 0 then (if n = 2 then (2, 0, 0, 4) else (3, sphericalAccessor n, 0, 4))
+  else (4, nameAccessor n m, iabs m, (if m % 2 = 1 then 0 else 2) + (if 0 ≤ m then 0 else 1))
+
+/-- key under which `zernikes_to_magnitude_angle_nmkey` collects the `+m` and `-m` terms -/
+def magangKey (n m : Int) : Int × Int := (n, iabs m)
+
+/-- positions of a coefficient list grouped by `magangKey`, groups in order of first appearance, positions ascending
+    (the order in which `defaultdict.append` sees them: the first member of a pair is the first argument of `arctan2`) -/
+def groupByKey (l : List (Int × Int)) : List ((Int × Int) × List Nat) :=
+  let rec ins (k : Int × Int) (i : Nat) : List ((Int × Int) × List Nat) → List ((Int × Int) × List Nat)
+    | [] => [(k, [i])]
+    | (k', is) :: rest => if k' = k then (k', is ++ [i]) :: rest else (k', is) :: ins k i rest
+  let rec go (i : Nat) (acc : List ((Int × Int) × List Nat)) : List (Int × Int) → List ((Int × Int) × List Nat)
+    | [] => acc
+    | (n, m) :: rest => go (i + 1) (ins (magangKey n m) i acc) rest
+  go 0 [] l
+
 /-! ## run-time of the translated Python fragments -/
 namespace Py
 
